@@ -1,4 +1,11 @@
 package main
 
-// dispatchExtra is extended by the concurrent / lifecycle drivers.
-func dispatchExtra(cmd, in, out, stats string) bool { return false }
+// dispatchExtra routes the concurrent / lifecycle drivers.
+func dispatchExtra(cmd, in, out, stats string) bool {
+	switch cmd {
+	case "conc":
+		dispatchConc(in, out, stats)
+		return true
+	}
+	return false
+}
